@@ -60,7 +60,7 @@ STYLES = ("plain", "uni", "tab", "nest", "semi", "comment")
 
 def bounds(tier):
     return {"site_kinds": len(SITES), "styles": list(STYLES), "approved_sets": len(_fsets(tier)),
-            "import_shapes": len(IMPORT_SHAPES), "newlines": ["LF", "CRLF", "CR"]}
+            "import_shapes": len(IMPORT_SHAPES), "newlines": ["LF", "CRLF", "CR"], "source_encodings": ["utf-8", "utf-8 with BOM", "latin-1 cookie", "cp1252 cookie"]}
 
 
 def _fsets(tier):
@@ -264,6 +264,12 @@ def _plugin_cases(tier):
         for p in pairs:
             for st in ("plain", "uni", "comment"):
                 cases.append({"kind": "newline", "nl": nl, "names": p, "style": st, "F": list(CATS)})
+    # source encodings python accepts: UTF-8 with a byte order mark, PEP 263 coding cookies
+    for enc in ("bom", "latin-1", "cp1252"):
+        for p in pairs:
+            for st in ("plain", "comment") if enc == "bom" else ("plain",):
+                for F in (list(CATS), ["fix"], []):
+                    cases.append({"kind": "encoding", "enc": enc, "names": p, "style": st, "F": F})
     for p in itertools.product(list(SITES)[:: (3 if tier == "quick" else 1)], repeat=2):
         cases.append({"kind": "clean", "names": list(p), "F": list(CATS)})
         cases.append({"kind": "clean", "names": list(p), "F": ["fix"]})
@@ -279,6 +285,12 @@ def _plugin_file(c):
     if kind == "newline":
         src = build_file([(c["names"], c["style"]), (["none"], "plain")])
         return src.replace("\n", c["nl"])
+    if kind == "encoding":
+        src = build_file([(c["names"], c["style"]), (["none"], "plain")])
+        if c["enc"] != "bom":
+            src = src.replace("\U0001f40d", "\xa4")  # single-byte encodings cannot hold astral characters
+            src = "# -*- coding: %s -*-\n# caf\xe9 \xfc\xdf\n" % c["enc"] + src.replace("def test_0", "NOTE = 'na\xefve \xa9'\n\n\ndef test_0", 1)
+        return src
     src = build_file([(c["names"], "plain"), ([c["names"][0]], "plain")])
     if kind == "clean":
         import black
@@ -322,14 +334,22 @@ def _judge_plugin(c):
 
     src = _plugin_file(c)
     pp = '[tool.inline-snapshot]\nformat-command="cat"\n' if c["kind"] == "fmtcmd" else ""
-    d = plugin.mk_project({"test_something.py": src.encode("utf-8"), "pyproject.toml": pp})
+    codec = {"bom": "utf-8-sig", "latin-1": "latin-1", "cp1252": "cp1252"}[c["enc"]] if c["kind"] == "encoding" else "utf-8"
+    d = plugin.mk_project({"test_something.py": src.encode(codec), "pyproject.toml": pp})
     try:
         r = plugin.session(d, ["--inline-snapshot=" + ",".join(c["F"])])
         raw = plugin.listing(d)["test_something.py"]
     finally:
         plugin.cleanup()
-    after = raw.decode("utf-8")
+    try:
+        after = raw.decode(codec)
+    except UnicodeDecodeError as e:
+        return ("file-no-longer-in-its-declared-encoding", "%s: %s" % (codec, e)), {"src": src, "after": repr(raw[-300:])}
     ctx = {"src": src, "after": after}
+    if c["kind"] == "encoding" and c["enc"] == "bom" and not raw.startswith(b"\xef\xbb\xbf"):
+        return ("text-outside-snapshot-arguments-changed", "the byte order mark at the start of the file is gone"), ctx
+    if c["kind"] == "encoding" and not c["F"] and raw != src.encode(codec):
+        return ("text-outside-snapshot-arguments-changed", "file changed without approved category"), ctx
     if plugin.internal_error(r["out"]) or r["rc"] not in (0, 1):
         return ("internal-error", "rc=%s %s" % (r["rc"], r["out"][-700:])), ctx
     import black
@@ -344,7 +364,7 @@ def _judge_plugin(c):
     cats = []
     if c["kind"] == "import":
         cats = [(SITES.get(n) or PLUGIN_SITES[n])[3] for n in c["names"]] + [None]
-    elif c["kind"] == "newline":
+    elif c["kind"] in ("newline", "encoding"):
         cats = [SITES[n][3] for n in c["names"]] + [None]
     else:
         cats = [SITES[n][3] for n in c["names"]] + [SITES[c["names"][0]][3]]
